@@ -824,7 +824,7 @@ func main() {
 	rng := wh.NewRng(a.Seed)
 	reps, perRouter := 1, 40
 	if a.Thorough() {
-		reps, perRouter = 12, 400
+		reps, perRouter = 40, 1200
 	}
 	ctorCases(out, rng)
 	genSA(out, rng, reps)
